@@ -32,6 +32,7 @@ struct Stats {
     ticks: u64,
     validated: u64,
     unspecified: u64,
+    corpus: u64,
     samples: Vec<(u64, Case)>,
 }
 
@@ -69,6 +70,9 @@ impl Stats {
         if ev.unspecified {
             self.unspecified += 1;
         }
+        if ev.corpus {
+            self.corpus += 1;
+        }
     }
     fn merge(&mut self, other: Stats) {
         self.evaluations += other.evaluations;
@@ -85,6 +89,7 @@ impl Stats {
         }
         self.validated += other.validated;
         self.unspecified += other.unspecified;
+        self.corpus += other.corpus;
         self.samples.extend(other.samples);
         self.samples.sort_by_key(|s| s.0);
         self.samples.truncate(3);
@@ -316,6 +321,7 @@ fn evaluate_stub() -> Eval {
         inspect: None,
         max_steps: 1,
         continue_after_error: false,
+        source_override: None,
     };
     evaluate(Prop::C02, &case)
 }
@@ -353,7 +359,7 @@ fn evidence_json(
         J::obj()
             .set("run_index", J::i(*idx))
             .set("run_seed", J::i(run_seed(opts.seed, prop, *idx)))
-            .set("source", J::s(case.program.to_text()))
+            .set("source", J::s(case.source_text()))
             .set("signals", J::arr(&case.signals, |s| s.to_json()))
             .set("duts", J::arr(&case.duts, |d| d.to_json()))
             .set(
@@ -388,6 +394,19 @@ fn evidence_json(
             J::i(stats.validated as i64),
         )
         .set("runs_cut_short_as_unspecified", J::i(stats.unspecified as i64))
+        .set(
+            "corpus",
+            J::obj()
+                .set("cases_from_repository_dig_fixtures", J::i(stats.corpus as i64))
+                .set(
+                    "fixture_tests_available",
+                    J::u(crate::corpus::corpus().tests.len()),
+                )
+                .set(
+                    "fixtures_skipped",
+                    J::arr(&crate::corpus::corpus().skipped, |s| J::s(s.clone())),
+                ),
+        )
         .set("profile", J::s(opts.profile.clone()))
         .set(
             "determinism_selfcheck",
@@ -952,7 +971,7 @@ pub fn replay_json(
         .set("profile", J::s(profile))
         .set("shrink_candidate_runs", J::i(shrink_runs as i64))
         .set("case", minimised.to_json())
-        .set("original_source", J::s(original.program.to_text()))
+        .set("original_source", J::s(original.source_text()))
 }
 
 pub struct ReplayOutcome {
